@@ -17,6 +17,7 @@ import (
 	"pgregory.net/rapid"
 
 	"verif/harness/hx"
+	"verif/harness/model"
 )
 
 // adapter gives the generic state machine a uniform view of one rule module. Rules travel as `any`
@@ -209,7 +210,7 @@ func flowAdapter() *adapter {
 		isNil: func(r any) bool { return r.(*flow.Rule) == nil },
 		valid: func(r any) bool {
 			x := r.(*flow.Rule)
-			if flow.IsValidRule(x) != nil {
+			if !model.ValidFlow(x) {
 				return false
 			}
 			return x.TokenCalculateStrategy >= flow.Direct && x.TokenCalculateStrategy <= flow.MemoryAdaptive && x.ControlBehavior >= flow.Reject && x.ControlBehavior <= flow.Throttling
@@ -274,7 +275,7 @@ func isolationAdapter() *adapter {
 			return r
 		},
 		isNil: func(r any) bool { return r.(*isolation.Rule) == nil },
-		valid: func(r any) bool { return isolation.IsValidRule(r.(*isolation.Rule)) == nil },
+		valid: func(r any) bool { return model.ValidIsolation(r.(*isolation.Rule)) },
 		resOf: func(r any) string { return r.(*isolation.Rule).Resource },
 		key:   func(r any) string { return isoKey(r.(*isolation.Rule)) },
 		clone: func(r any) any {
@@ -391,7 +392,7 @@ func hotspotAdapter() *adapter {
 		isNil: func(r any) bool { return r.(*hotspot.Rule) == nil },
 		valid: func(r any) bool {
 			x := r.(*hotspot.Rule)
-			if hotspot.IsValidRule(x) != nil {
+			if !model.ValidHotspot(x) {
 				return false
 			}
 			return (x.ControlBehavior == hotspot.Reject || x.ControlBehavior == hotspot.Throttling) && (x.MetricType == hotspot.QPS || x.MetricType == hotspot.Concurrency)
@@ -497,7 +498,7 @@ func circuitbreakerAdapter() *adapter {
 		isNil: func(r any) bool { return r.(*cb.Rule) == nil },
 		valid: func(r any) bool {
 			x := r.(*cb.Rule)
-			return cb.IsValidRule(x) == nil && x.Strategy >= cb.SlowRequestRatio && x.Strategy <= cb.ErrorCount
+			return model.ValidCb(x) && x.Strategy >= cb.SlowRequestRatio && x.Strategy <= cb.ErrorCount
 		},
 		resOf: func(r any) string { return r.(*cb.Rule).Resource },
 		key:   func(r any) string { return cbKey(r.(*cb.Rule)) },
@@ -560,7 +561,7 @@ func systemAdapter() *adapter {
 			return r
 		},
 		isNil: func(r any) bool { return r.(*system.Rule) == nil },
-		valid: func(r any) bool { return system.IsValidSystemRule(r.(*system.Rule)) == nil },
+		valid: func(r any) bool { return model.ValidSystem(r.(*system.Rule)) },
 		resOf: func(r any) string { return "" },
 		key:   func(r any) string { return sysKey(r.(*system.Rule)) },
 		clone: func(r any) any {
@@ -671,7 +672,7 @@ func outlierAdapter() *adapter {
 		isNil: func(r any) bool { return r.(*outlier.Rule) == nil || r.(*outlier.Rule).Rule == nil },
 		valid: func(r any) bool {
 			x := r.(*outlier.Rule)
-			return outlier.IsValidRule(x) == nil && cb.IsValidRule(x.Rule) == nil
+			return model.ValidOutlier(x) && model.ValidCb(x.Rule)
 		},
 		resOf: func(r any) string { return r.(*outlier.Rule).Resource },
 		key:   func(r any) string { return outKey(r.(*outlier.Rule)) },
